@@ -9,6 +9,16 @@ One clause per text format plus the rejection clause.  Every round-trip case
      to the one loaded from the pristine string.
 Tolerances are half a unit of the last printed digit (in file units, converted with the unit the writer used),
 propagated through the arithmetic the reader has to do (hi-lo, image-flag shifts, unscaling).
+
+Round 3 (after the seeded regressions C08-b2, C08-b3 were missed): every oracle is split into oracle_X(case) = build a
+fresh object + judge_X(am, system, snapshot, ...), so that the same judge serves
+  * the `history` clause: ONE System object written repeatedly in all four formats (data file with safecopy on and off)
+    with box / positions / pbc changed through the public setters in between, each dump + load judged against the
+    state of the object at that moment (see the comment above HIST_STYLES);
+  * the alternative descriptions of the columns that the 'table' and 'atom_dump' docstrings offer: prop_info dicts
+    written by hand or the separate prop_name / table_name / shape / unit / dtype lists, with whole lists left out and
+    None entries in unit ("no conversion") and dtype ("infer"), on the writer's and on the loader's side independently
+    (gens_c08.describe).
 """
 import functools
 import io
@@ -31,7 +41,13 @@ RULE = ("systems: LAMMPS-compatible cells (orthogonal/triclinic, any origin; rot
         "atomic or units != metal or scaled/unwrapped columns) AND a carried non-position property of rank >= 1; "
         "(table) a rank >= 1 property AND (unit conversion or scaled or header/comments/ids); (poscar) tilted, rotated "
         "or shifted cell AND (>= 2 types or a gap) AND (scale != 1 or Cartesian); (reject) a mutilated file that "
-        "still contains all other sections, perturbed or given as path/stream")
+        "still contains all other sections, perturbed or given as path/stream.  table / dump file: in about a third "
+        "of the cases the columns are described explicitly on either side (lists with left-out lists and None entries, "
+        "hand-written prop_info dicts, the returned prop_info), units per column None / LAMMPS-standard / other / scaled.  "
+        "history: 2-5 steps on one object drawn from data/dump/table/POSCAR dumps (safecopy True in a quarter of the data "
+        "dumps), box_set(vects | avect,bvect,cvect, scale on/off) or box.vects=, positions assigned three ways, pbc, reads of "
+        "derived quantities; non-trivial: >= 2 dumps and a dump that needs box-relative coordinates after an in-place "
+        "wrap or a modification")
 ASSUMPTIONS = ["numpy/pandas number parsing and printf formatting are correct",
                "atomman.unitconvert (judged by C09) and the lammps.style unit table are used only to scale the "
                "tolerance of fixed-point formats (half a printed digit in file units), never for expected values",
@@ -39,15 +55,22 @@ ASSUMPTIONS = ["numpy/pandas number parsing and printf formatting are correct",
                "unit there)",
                "the 0.001 margin by which System.wrap extends non-periodic boundaries is not asserted: along an "
                "extended direction only 'same direction, contains the old cell and every atom' is required",
+               "history clause: where atomman itself recomputed coordinates of the object (in-place wrap, box_set(scale="
+               "True), scaled assignment) the object's raw box/pos arrays are checked against my model to 1e-9 (relative, "
+               "times the cell condition) and then adopted as the snapshot for the following steps",
+               "an atom_id column counts as 'ids present' only when the description given to the loader names it 'id'",
                "on a tree where a listed finding blocks a whole clause (pandas readers, POSCAR writer) the non-vacuity "
                "guards of that clause are switched off (probe in _tree_state); the oracles never consult the probe"]
 LEVEL_TEXT = ("generated systems written by atomman and read back in all four text formats (all atom styles incl. "
               "hybrid pairs, 8 unit styles, 4 float formats, scaled/unwrapped dump columns, POSCAR direct/Cartesian with "
               "scale factors), compared with an independent snapshot to the printed precision; shuffled atom lines, "
               "comments, blank lines and string/path/stream input must give the identical system; mutilated data "
-              "files must raise FileFormatError")
+              "files must raise FileFormatError; table/dump-file columns also described through explicit lists (left-out "
+              "lists, None entries) and hand-written prop_info; histories of 2-5 dumps/modifications on one object "
+              "(safecopy on and off) with every dump judged the same way")
 TECHNIQUE = ("round trip against an independent numpy snapshot with printed-precision tolerances; metamorphic "
-             "text perturbation (line order, comments, blank lines, input source); negative cases by section deletion")
+             "text perturbation (line order, comments, blank lines, input source); negative cases by section deletion; "
+             "model-based object histories")
 WALL = {'quick': 60, 'thorough': 540}
 
 EPS = 2.3e-16
